@@ -1,4 +1,5 @@
 import Qats.Lemmas.SNMain
+import Qats.Lemmas.SN06Main
 import Qats.Lemmas.SNBilinear
 /-!
 # C06 — Miner damage is additive and agrees between histogram and closed form
